@@ -40,6 +40,7 @@ def check(ctx, F):
     _FN["F"] = F
     check_iterators(ctx, F)
     check_reset(ctx, F)
+    check_reset_plan_data(ctx, F)
     if not any(b["name"] == "linkTask" and b["inst"] for b in F.bodies.values()):
         ctx.note("unit %s compiled without PLANS" % F.label)
         return
@@ -377,6 +378,27 @@ def check_reset(ctx, F):
                 elif init is not None and _val(assigned[n]) != _val(init):
                     ctx.violation("C07.reset", site + "/" + n, "%s (%s)" % (site, F.floc(fid)),
                                   "%s resets `%s` to %s, its initial value is %s" % (site, n, assigned[n], init), {})
+
+
+def check_reset_plan_data(ctx, F):
+    """PlanDataT::clear() (payload and void copies alike) resets every data member of the record, directly or through a member it calls"""
+    from ..effects import Effects
+    E = Effects(F)
+    for fid, b in insts(F, "PlanDataT", {"clear"}):
+        t = F.type(b["tid"])
+        if not t or not t.get("complete"):
+            continue
+        fields = [f["n"] for f in t.get("fields", []) if f.get("n")]
+        if not fields:
+            continue        # the plans-disabled stub
+        fl = "void" if "taskPayloads" not in fields else "payload"
+        site = "PlanDataT<%s>::clear" % fl
+        w = E.star(fid)
+        ctx.instance("C07.reset", site, {"function": site, "loc": F.floc(fid), "fields": fields, "written": sorted(x for x in w if x in fields)})
+        for n in fields:
+            if n not in w:
+                ctx.violation("C07.reset", site + "/" + n, "%s (%s)" % (site, F.floc(fid)),
+                              "%s does not reset `%s`: after a whole-storage wipe (finalExit, load) stale %s survive into the next plan" % (site, n, n), {})
 
 
 def _val(t):
